@@ -1,13 +1,14 @@
 (* Model of spectrum/eigenfre.py: eigen(), _get_signal_space(), music()/ev() and the
-   pmusic / pev __call__ pipelines, as the code is NOW (after the repairs D4 = 5a5f0c6 and
-   D21 = 36b7e17).  Definitions only.
+   pmusic / pev __call__ pipelines, as the code is NOW (after the repairs D4 = 5a5f0c6,
+   D21 = 36b7e17 and D22 = b2427b9).  Definitions only.
 
    Library calls are not modelled by code:
    * numpy.linalg.svd(FB) returns (U, S, Vh); the model RECEIVES (S, Vh) (numpy's singular values and
      the rows of numpy's V^H) — in the theorems they are Section variables constrained by [svd_spec];
    * numpy.fft.fft is [dft tw NFFT] of Theory/Dft.v (tw a = exp(-2 pi i a / NFFT));
    * numpy.argmin(aic_eigen(S, 4 NP)) / mdl_eigen (logarithms) enters as the natural number [amin];
-   * 2 pi / df of Spectrum.scale() enters as the field element [scale] (None when scale_by_freq is False).
+   * 2 pi / df of Spectrum.scale() enters as the field element [scale] (None when scale_by_freq is False);
+   * numpy.finfo(float).eps enters as the field element [eps] (2^-52 in the binary64 runs, positive in the theorems).
 
    There is no scaling of the data matrix in the code (Marple's 1/sqrt(2 NP) is absent): none in the model. *)
 Require Import Spectrum.Theory.Ops Spectrum.Theory.Sum Spectrum.Theory.Vec Spectrum.Theory.Dft.
@@ -111,19 +112,23 @@ Definition eigen_nsig (meth : method_arg) (nsig : option nsig_arg) (thr : option
 (* V = -Vh.transpose(); Z[0:P] = V[0:P, I] (= -Vh[I, :]); Z = fft(Z, NFFT); abs(Z)**2 *)
 Definition noise_fft (tw : Z -> F) (NFFT : nat) (vrow : list F) : list F :=
   map nrm2 (dft tw NFFT (map opp vrow)).
-(* PSD = PSD + abs(Z)**2            (music)
-   PSD = PSD + abs(Z)**2 / S[I]     (ev)      — any other method is rejected before *)
-Definition acc_step (meth : method_arg) (tw : Z -> F) (NFFT : nat) (S : list F) (Vh : list (list F))
+(* Python's max(a, b): b when b > a, else a *)
+Definition fmax2 (a b : F) : F := if gtb b a then b else a.
+(* the floored singular value of D22: max(S[I], numpy.finfo(float).eps * S[0]) *)
+Definition sfloor (eps : F) (S : list F) (I : nat) : F := fmax2 (nthF S I) (eps * nthF S 0).
+(* PSD = PSD + abs(Z)**2                                   (music)
+   PSD = PSD + abs(Z)**2 / max(S[I], eps * S[0])           (ev)      — any other method is rejected before *)
+Definition acc_step (meth : method_arg) (eps : F) (tw : Z -> F) (NFFT : nat) (S : list F) (Vh : list (list F))
                     (acc : list F) (I : nat) : list F :=
   let t := noise_fft tw NFFT (mrow Vh I) in
-  let s := nthF S I in
+  let s := sfloor eps S I in
   mk NFFT (fun k => nthF acc k + match meth with MEv => nthF t k / s | _ => nthF t k end).
 (* for I in range(NSIG, P) *)
-Definition pseudo_den (meth : method_arg) (tw : Z -> F) (NFFT P : nat) (S : list F) (Vh : list (list F)) (ns : nat) : list F :=
-  fold_left (acc_step meth tw NFFT S Vh) (seq ns (P - ns)) (mk NFFT (fun _ => 0)).
+Definition pseudo_den (meth : method_arg) (eps : F) (tw : Z -> F) (NFFT P : nat) (S : list F) (Vh : list (list F)) (ns : nat) : list F :=
+  fold_left (acc_step meth eps tw NFFT S Vh) (seq ns (P - ns)) (mk NFFT (fun _ => 0)).
 (* PSD = 1./PSD *)
-Definition pseudo (meth : method_arg) (tw : Z -> F) (NFFT P : nat) (S : list F) (Vh : list (list F)) (ns : nat) : list F :=
-  map (fun d => 1 / d) (pseudo_den meth tw NFFT P S Vh ns).
+Definition pseudo (meth : method_arg) (eps : F) (tw : Z -> F) (NFFT P : nat) (S : list F) (Vh : list (list F)) (ns : nat) : list F :=
+  map (fun d => 1 / d) (pseudo_den meth eps tw NFFT P S Vh ns).
 
 (* nby2 = int(NFFT/2); newpsd = np.append(PSD[nby2::-1], PSD[NFFT-1:nby2:-1]) *)
 Definition eigen_reorder (NFFT : nat) (PSD : list F) : list F :=
@@ -131,12 +136,12 @@ Definition eigen_reorder (NFFT : nat) (PSD : list F) : list F :=
   rev (firstn (nby2 + 1) PSD) ++ rev (skipn (nby2 + 1) PSD).
 
 (* eigen(X, P, NSIG, method, threshold, NFFT, criteria) -> (newpsd, S) *)
-Definition eigen (meth : method_arg) (nsig : option nsig_arg) (thr : option F) (crit : crit_arg) (amin : nat)
+Definition eigen (meth : method_arg) (eps : F) (nsig : option nsig_arg) (thr : option F) (crit : crit_arg) (amin : nat)
                  (tw : Z -> F) (NFFT : nat) (x : list F) (P : nat) (S : list F) (Vh : list (list F))
   : eig_err + (list F * list F) :=
   match eigen_nsig meth nsig thr crit amin (length x) P NFFT S with
   | inl e => inl e
-  | inr ns => inr (eigen_reorder NFFT (pseudo meth tw NFFT P S Vh ns), S)
+  | inr ns => inr (eigen_reorder NFFT (pseudo meth eps tw NFFT P S Vh ns), S)
   end.
 
 (* music(X, IP, NSIG, NFFT, threshold, criteria) and ev(...): eigen() with the method fixed *)
@@ -154,11 +159,11 @@ Definition class_psd (isreal_data : bool) (NFFT : nat) (scale : option F) (psd :
            else ifftshift psd in
   match scale with Some c => map (fun a => a * c) p | None => p end.
 (* the object after __call__: (psd, eigenvalues); meth is fixed by the class (pmusic: MMusic, pev: MEv) *)
-Definition pclass (meth : method_arg) (isreal_data : bool) (scale : option F)
+Definition pclass (meth : method_arg) (eps : F) (isreal_data : bool) (scale : option F)
                   (nsig : option nsig_arg) (thr : option F) (crit : crit_arg) (amin : nat)
                   (tw : Z -> F) (NFFT : nat) (x : list F) (P : nat) (S : list F) (Vh : list (list F))
   : eig_err + (list F * list F) :=
-  match eigen meth nsig thr crit amin tw NFFT x P S Vh with
+  match eigen meth eps nsig thr crit amin tw NFFT x P S Vh with
   | inl e => inl e
   | inr (psd, ev) => inr (class_psd isreal_data NFFT scale psd, ev)
   end.
@@ -171,10 +176,10 @@ Definition centerdc_bin (NFFT j : nat) : Z := (Z.of_nat j - Z.of_nat (NFFT / 2))
 (* right singular vector I of numpy's factorisation FB = U diag(S) Vh: v_I[m] = conj(Vh[I, m]) *)
 Definition rsv (Vh : list (list F)) (I m : nat) : F := conj (mat Vh I m).
 (* weight of noise vector I *)
-Definition weight (meth : method_arg) (S : list F) (I : nat) : F :=
-  match meth with MEv => 1 / nthF S I | _ => 1 end.
-(* the noise-subspace form at bin b:  D(b) = sum_{I = ns}^{P-1} w_I |e(b)^H v_I|^2,  e(b)[m] = exp(+2 pi i m b / NFFT),
+Definition weight (meth : method_arg) (eps : F) (S : list F) (I : nat) : F :=
+  match meth with MEv => 1 / sfloor eps S I | _ => 1 end.
+(* the noise-subspace form at bin b:  D(b) = sum_{I = ns}^{P-1} w_I |e(b)^H v_I|^2 (w_I = 1, or 1/max(S_I, eps S_0) for EV),  e(b)[m] = exp(+2 pi i m b / NFFT),
    so e(b)^H v = sum_m v[m] tw(m b) = dftN tw P v b *)
-Definition dform (meth : method_arg) (tw : Z -> F) (P : nat) (S : list F) (Vh : list (list F)) (ns : nat) (b : Z) : F :=
-  sumf (P - ns) (fun t => nrm2 (dftN tw P (rsv Vh (ns + t)) b) * weight meth S (ns + t)).
+Definition dform (meth : method_arg) (eps : F) (tw : Z -> F) (P : nat) (S : list F) (Vh : list (list F)) (ns : nat) (b : Z) : F :=
+  sumf (P - ns) (fun t => nrm2 (dftN tw P (rsv Vh (ns + t)) b) * weight meth eps S (ns + t)).
 End Eigen.
